@@ -371,6 +371,17 @@ theorem inline_sound_partial (ren : ρ → ρ) (vis : ρ → Prop)
 
 end
 
+/-- the stack bracket: a callee with BOTH a constant top alloca and a variable-size alloca
+(`alloca c,16; alloca p,n`) needs `bstart/bend` around its inlined copy, a callee with only the
+constant one (given directly or as `mov t,16; alloca c,t`) does not; an alloca behind a label does.
+`checks/c04.py` (stage `bracket`) compares `inlineBrackets` with the number of `bstart`/`bend` the
+real `MIR_link` puts into the caller, for generated callees of all these shapes. -/
+example :
+    inlineBrackets [.alloca (.reg (.user "c")) (.imm 16), .alloca (.reg (.user "p")) (.reg (.user "n")), .ret []] = 1 ∧
+    inlineBrackets [.mov (.reg (.temp 0)) (.imm 16), .alloca (.reg (.user "c")) (.reg (.temp 0)), .ret []] = 0 ∧
+    inlineBrackets [.mov (.reg (.user "i")) (.imm 0), .alloca (.reg (.user "p")) (.reg (.user "n")), .ret []] = 1 ∧
+    inlineBrackets [.label 1, .alloca (.reg (.user "p")) (.imm 4096), .ret []] = 1 := by decide
+
 /-- non-vacuity: callee `f(a, b) { t = a + b; t = t * a; return t }` inlined as `.c1_*` into a caller
 with registers `x, y, r`: the hypotheses hold and both sides compute `(x + y) * x` into `r` -/
 example :
